@@ -22,7 +22,7 @@ def run(cx):
     cx.tlc_must_pass(r, "Robust")
     q = cx.quick()
     plan = [("soup", 6000 if q else 300000), ("chars", 4000 if q else 200000), ("mutants", 6000 if q else 300000),
-            ("cyclic", 0), ("deep", 0), ("contexts", 0), ("illformed", 0)]
+            ("cyclic", 0), ("deep", 0), ("contexts", 0), ("illformed", 0), ("breaks", 0)]
     known = {f["id"]: f for f in cx.known_findings()}
     total = 0
     by_kind = {}
